@@ -150,3 +150,23 @@ def module_history(rng):
             for k, nm in enumerate(r.sample(names, 4))]
     steps.append(("snip", "\n".join(last) + "\n"))
     return steps, mods
+
+
+def native_alias_program(rng):
+    """main binds built-in functions and other values under names of its own (var say = print; ...); imported modules
+    that use those names without defining them must get a NameError for every kind of value, and vice versa"""
+    r = rng
+    aliases = [("say", "print"), ("kind_of", "type"), ("to_text", "String.from"), ("tick", "clock"), ("push_it", "[1].push"), ("a_number", "41"),
+               ("a_lambda", "|x| x"), ("a_class", "Vec"), ("an_error", "TypeError"), ("a_vec", "[1, 2]")]
+    picked = r.sample(aliases, r.range(3, 7))
+    lib = ["var lib_only = \"lib value\";", "var lib_say = print;"]
+    for name, _ in aliases:
+        lib.append("fn use_%s() { try { return type(%s); } catch e { return [type(e), e.context]; } }" % (name, name))
+    lib.append("fn call_say() { try { say(\"from lib\"); return \"announced\"; } catch e { return [type(e), e.context]; } }")
+    lib.append("fn own() { return [type(lib_say), lib_only]; }")
+    M = ["var %s = %s;" % kv for kv in picked] + ["import \"aliaslib\" as aliaslib;"]
+    for name, _ in r.sample(aliases, 6):
+        M.append("print(aliaslib.use_%s());" % name)
+    M += ["print(aliaslib.call_say());", "print(aliaslib.own());", "try { print(lib_only); } catch e { print(type(e)); }",
+          "try { print(type(lib_say)); } catch e { print(type(e)); }"]
+    return "\n".join(M) + "\n", [("aliaslib", "\n".join(lib) + "\n")]
